@@ -58,7 +58,8 @@ Prefixes == {<<>>, <<43>>, <<45>>}
 Suffixes == {<<>>, <<94, 50>>, <<94, 48, 46, 53>>, <<94>>, <<94, 120>>}   \* none ^2 ^0.5 ^ ^x
 Parts == {p \o b \o s : p \in Prefixes, b \in Bases, s \in Suffixes}
 SmallParts  == {p \o b : p \in {<<>>, <<45>>},
-                          b \in {Dog, FTitle \o C \o Dog, N10, Phrase}}
+                          b \in {Dog, FTitle \o C \o Dog, N10, Phrase,
+                                 N2p5, FPrice \o C \o <<62>> \o N2p5}}   \* a second number with a fraction
 MediumParts == {p \o b \o s : p \in Prefixes,
                               b \in {Dog, Dog \o <<126>>, FTitle \o C \o Dog, N10, Phrase,
                                      FPrice \o C \o <<62, 61>> \o N10, FDate \o C \o <<60>> \o Q(Day),
